@@ -149,7 +149,14 @@ func e2eUp4Worker(args []string) error {
 		case w.Died:
 			account()
 		case killNow:
-			// crash with live sessions: the switch keeps its entries, a new incarnation starts against it
+			// crash with live sessions: the switch keeps its entries, a new incarnation starts against it; every other
+			// time the crash comes in the middle of a request, at the k-th Write RPC the switch receives for it
+			if rng.Intn(2) == 0 {
+				w.KillAtWrite = 1 + rng.Intn(14)
+				g.Step()
+				sum.Stats["kill_mid_request"]++
+			}
+
 			w.KillAgent()
 
 			if err := w.StartAgent(); err != nil {
